@@ -297,8 +297,21 @@ def ir_candidates(lines, tier, notes):
         r = subprocess.run([sys.executable, os.path.join(fmlib.VERIF, "tools", "irsearch.py"), "--heads", ",".join(heads), "--budget", str(budget)],
                            capture_output=True, text=True, timeout=budget * 2 + 120)
         out = json.loads(r.stdout)
-        st = out["stats"]; st["ran"] = True; st["changed_files"] = ch; st["candidates"] = len(out["candidates"]); st["sample"] = out["candidates"][:4]
-        return st, out["candidates"]
+        cands = out["candidates"]
+        if cands:
+            # arguments outside the library's contract (the model answers `ub ...`: shift counts, casts of out-of-range values)
+            # may legitimately behave differently after a rewrite: they are not inputs of any property
+            drv = fmlib.build_driver()
+            keep = set()
+            for be in ("std", "ab"):
+                mo, _, _ = fmlib.run_parallel(drv, [l.replace(":dflt", ":" + be) for l in cands])
+                if len(mo) == len(cands): keep |= {i for i, m_ in enumerate(mo) if m_.startswith("ub") or m_ == "bad-op"}
+            dropped = len(keep)
+            cands = [l for i, l in enumerate(cands) if i not in keep]
+        else:
+            dropped = 0
+        st = out["stats"]; st["ran"] = True; st["changed_files"] = ch; st["candidates"] = len(cands); st["outside_contract_dropped"] = dropped; st["sample"] = cands[:4]
+        return st, cands
     except Exception as e:
         notes.append("solver-guided search did not complete (%s: %s); the other stages are unaffected" % (type(e).__name__, str(e)[:200]))
         return {"ran": False, "reason": "error"}, []
